@@ -151,7 +151,9 @@ CLAIMED = {
              "panics (also with no numeric value or interval 0), collects exactly the values that convert to numbers, and the tally "
              "sent for a bucket [b, b+i) is 1.0 added once per collected value v with b <= v < b+i; term consumes its whole input and "
              "emits at most `size` buckets when a size is given; the compiler rejects an aggregate step with two equal names (so the "
-             "arms never share a channel). Not decided: percentile (t-digest library), field and type arms, ordering by frequency "
+             "arms never share a channel); the type arm consumes its whole input and every row it emits carries a type name that occurs "
+             "in the input with exactly the number of input rows of that type. Not decided: percentile (t-digest library), the field arm, "
+             "that every occurring key gets a row, ordering by frequency "
              "(library sort), bucket alignment in floating point, and independence under real concurrency.",
         ref="§5 C19",
         note=TRUST + " Assumed: cast.ToFloat64E and jsonpath.TravelerPathLookup contracts, sort.* not modelled, each arm's sends on the shared "
